@@ -92,7 +92,15 @@ impl PatGen<'_, '_, '_> {
         }
         let p = match t {
             Ty::Bool => Pat::Bool(self.src.bool()),
-            Ty::Int => Pat::Int(BigInt::from(self.src.range(-1, 2))),
+            Ty::Int => {
+                if self.src.chance(1, 5) {
+                    // literals beyond the machine word (compared as big integers, not as i64)
+                    let big = *self.src.pick(&["9223372036854775807", "9223372036854775808", "18446744073709551616", "36893488147419103232", "-9223372036854775809", "-18446744073709551616"]);
+                    Pat::Int(big.parse::<BigInt>().unwrap())
+                } else {
+                    Pat::Int(BigInt::from(self.src.range(-1, 2)))
+                }
+            }
             Ty::Bytes => {
                 let n = self.src.below(2);
                 Pat::Bytes(vec![0xab; n])
